@@ -23,13 +23,16 @@ Section C13.
      expr_cache_pure / js_isolation / node_json_fresh, C20) - to be instantiated by the integrator *)
   Hypothesis CInv_mono : forall used used' c,
     (forall x, In x used -> In x used') -> CInv used c -> CInv used' c.
-  Hypothesis eval_cache_transparent : forall c s w,
-    fst (eval true c s w) = fst (eval false c s w).
+  Hypothesis eval_cache_transparent : forall s w,
+    content_stable_per_id s -> NoDup (w_ids w) ->
+    fst (eval true c0 s w) = fst (eval false c0 s w).
   Hypothesis eval_id_renaming : forall (f : N -> N) m s w,
+    content_stable_per_id s -> NoDup (w_ids w) ->
     (forall x y, In x (w_ids w) -> In y (w_ids w) -> f x = f y -> x = y) ->
     fst (eval m c0 s (w_rename f w)) = fst (eval m c0 s w).
   Hypothesis eval_caches_sound : forall used c m s w,
     CInv used c -> (forall i, In i (w_rec_ids w) -> ~ In i used) -> content_stable_per_id s ->
+    NoDup (w_ids w) ->
     fst (eval m c s w) = fst (eval m c0 s w) /\ CInv (w_rec_ids w ++ used) (snd (eval m c s w)).
   Notation run_env := (run_env schema V C eval marshal marshal_err_cont H canon).
   Notation Inv := (Inv C CInv).
@@ -169,17 +172,18 @@ Qed.
    pooling and JS caches off) satisfy Inv. *)
 Example c13_hypotheses_satisfiable :
   (forall used used' c, (forall x, In x used -> In x used') -> tCInv used c -> tCInv used' c) /\
-  (forall c s w, fst (teval true c s w) = fst (teval false c s w)) /\
-  (forall (f : N -> N) m s w,
+  (forall s w, tguard s -> NoDup (w_ids w) -> fst (teval true tc0 s w) = fst (teval false tc0 s w)) /\
+  (forall (f : N -> N) m s w, tguard s -> NoDup (w_ids w) ->
      (forall x y, In x (w_ids w) -> In y (w_ids w) -> f x = f y -> x = y) ->
      fst (teval m tc0 s (w_rename f w)) = fst (teval m tc0 s w)) /\
   (forall used c m s w, tCInv used c -> (forall i, In i (w_rec_ids w) -> ~ In i used) -> tguard s ->
+     NoDup (w_ids w) ->
      fst (teval m c s w) = fst (teval m tc0 s w) /\ tCInv (w_rec_ids w ++ used) (snd (teval m c s w))) /\
   Pipeline.Inv tcache tCInv h_fresh /\ Pipeline.Inv tcache tCInv h_warm /\ Pipeline.Inv tcache tCInv h_off /\
   tguard OnRecord.
 Proof.
-  split; [exact t_CInv_mono|]. split; [exact t_cache_transparent|].
-  split; [exact t_id_renaming|]. split; [exact t_caches_sound|].
+  split; [exact t_CInv_mono|]. split; [intros; apply t_cache_transparent|].
+  split; [intros; apply t_id_renaming; assumption|]. split; [intros; apply t_caches_sound; assumption|].
   split; [exact Inv_h_fresh|]. split; [exact Inv_h_warm|]. split; [exact Inv_h_off|reflexivity].
 Qed.
 
